@@ -9,6 +9,7 @@ Theorems for EVERY byte string, every start position, every fault environment.  
 `run_load_faults` (outcome class, has-tags, call log, file untouched, not closed).
 -/
 import MutagenModel.Proofs.Container.Mp4LoadCap
+import MutagenModel.Proofs.Container.Mp4Link
 set_option linter.unusedVariables false
 namespace Mutagen.C06
 open Mutagen Mutagen.Mp4C
@@ -67,6 +68,45 @@ theorem mp4_save_full_enlarge_first {e : Env} (hq : Quiet e) (B : Nat) (hB : 0 <
     (∃ s', saveTagsFullM B ilstData pad e s = (toExcept (saveTags true s.data ilstData pad).1, s') ∧
       s'.data = (saveTags true s.data ilstData pad).2) :=
   saveTagsFullM_q hq B hB ilstData pad s
+
+/-! ### C06 for the save that performs its reads (`saveFullEntryM`: `@convert_error(IOError, error)` around `saveTagsFullM`) -/
+
+/-- once `Atoms(fileobj)` has returned normally — in ANY environment — its atoms are the pure parse of the complete bytes
+(no short read is mistaken for the end of the file) and the save continues as the summarised `saveTagsM` on those bytes;
+if it raised, that exception is the save's -/
+theorem mp4_save_full_after_reads (B : Nat) (ilstData : Bytes) (pad : PadChoice) (e : Env) (s : FS) :
+    (∃ x s1, atomsM e s = (.error x, s1) ∧ saveTagsFullM B ilstData pad e s = (.error x, s1)) ∨
+    (∃ atoms s1, atomsM e s = (.ok atoms, s1) ∧ s1.data = s.data ∧ Mp4C.parse s.data = .ok atoms ∧
+      saveTagsFullM B ilstData pad e s = saveTagsM B ilstData pad e s1) :=
+  saveTagsFullM_after_reads B ilstData pad e s
+
+/-- under ANY fault environment what leaves the entry point is `error`, or a non-I/O exception (one the file object
+injected, ValueError from an argument check, the BUFFER_SIZE = 0 / fuel marker) -/
+theorem mp4_save_full_raises_only (B : Nat) (ilstData : Bytes) (pad : PadChoice) :
+    Raises (fun e x => x = .mutagen ∨ ((x = .mutagen ∨ PrimErr e x) ∧ x.isIO = false)) (saveFullEntryM B ilstData pad) :=
+  Raises.convertError PyErr.isIO .mutagen (raises_saveTagsFullM B ilstData pad)
+
+/-- with I/O faults only (and arbitrary short reads): MutagenError, ValueError or the marker -/
+theorem mp4_save_full_io_faults (B : Nat) (ilstData : Bytes) (pad : PadChoice)
+    (e : Env) (hio : ∀ i x, e.failAt i = some x → x.isIO = true) (s s' : FS) (x : PyErr)
+    (h : saveFullEntryM B ilstData pad e s = (.error x, s')) : x = .mutagen ∨ x = .value ∨ x = .diverge := by
+  rcases mp4_save_full_raises_only B ilstData pad e s x s' h with h1 | ⟨h2, hn⟩
+  · exact Or.inl h1
+  · rcases h2 with h2 | h2
+    · exact Or.inl h2
+    · rcases h2 with ⟨i, hi⟩ | h2 | h2 | h2 | h2
+      · have := hio i x hi; rw [this] at hn; cases hn
+      · subst h2; cases hn
+      · exact Or.inr (Or.inl h2)
+      · subst h2; cases hn
+      · exact Or.inr (Or.inr h2)
+
+/-- success means written: a normal return of the save with its reads — any environment without short reads, any
+capacity — means the pure model finished without an exception and the file holds exactly its result -/
+theorem mp4_save_full_ok_means_written (B : Nat) (hB : 0 < B) (ilstData : Bytes) (pad : PadChoice) (e : Env)
+    (hshort : ∀ i, e.shortAt i = none) (s s' : FS) (h : saveFullEntryM B ilstData pad e s = (.ok (), s')) :
+    (saveTags true s.data ilstData pad).1 = none ∧ s'.data = (saveTags true s.data ilstData pad).2 :=
+  saveTagsFullM_ok_means_written B hB ilstData pad e hshort s s' (convertError_ok _ _ _ e s s' () h)
 
 /-! ### short reads
 
